@@ -296,12 +296,8 @@ def selection_order(ctx, prog, rule):
             # is_some() true edge returns without reaching the fallback
             Rb = Resolver(body)
             early = False
-            for bi, tt in body.calls(lambda c, t: c.endswith("Option::<T>::is_some")):
-                a = strip(Rb.operand(tt["args"][0]))
-                if a[0] == "call" and a[1] == P + "from_limits":
-                    be = bool_edges(body, bi)
-                    if be:
-                        early = not any(x in reach(body.cfg(), [be[1]]) for x in fb)
+            for sw, some_s, none_s in option_tests(body, Rb, lambda a: a[0] == "call" and a[1] == P + "from_limits"):
+                early = not any(x in reach(body.cfg(), [some_s]) for x in fb)
             oko = not back and early
         ctx.ob(rule, "limits-before-type/%s" % fld, oko, "limits are consulted first and the data-type range is used only when they yield no range")
     ctx.floor(rule, "normalised channels", n, 4)
@@ -321,9 +317,12 @@ def type_ranges(ctx, prog, rule):
     got = {}
     for bi, t in f.calls(lambda c, t: c == P + "from_min_max"):
         a, b = strip(R.operand(t["args"][0])), strip(R.operand(t["args"][1]))
-        sa, sb = _descr(a), _descr(b)
-        key = "Single" if "Single" in sa else "Double" if "Double" in sa else "ScaledInteger" if "ScaledInteger" in sa else "Integer"
-        got[key] = (sa, sb)
+        # one call fed by a match over the data type: the arms pair up (both values are fields of one tuple per arm)
+        alts = list(zip(a[1], b[1])) if a[0] == "phi" and b[0] == "phi" and len(a[1]) == len(b[1]) else [(a, b)]
+        for xa, xb in alts:
+            sa, sb = _descr(xa), _descr(xb)
+            key = "Single" if "Single" in sa else "Double" if "Double" in sa else "ScaledInteger" if "ScaledInteger" in sa else "Integer"
+            got[key] = (sa, sb)
     F32MIN, F32MAX = struct.unpack("<I", struct.pack("<f", -3.4028234663852886e38))[0], struct.unpack("<I", struct.pack("<f", 3.4028234663852886e38))[0]
     want = {
         "Single": ("unwrap_or(arg1.Single.min,f32::MIN)", "unwrap_or(arg1.Single.max,f32::MAX)"),
